@@ -654,8 +654,14 @@ def write_evidence(prop, tier, sel, rows, nob, ndis, nb, nbd, wall, nviol, undec
                         "obligations": r["obligations"], "discharged": r["discharged"]})
     ev = {
         "property_id": prop, "tier": tier, "seed": int(os.environ.get("VERIF_SEED", "0") or 0),
-        "level": "proof",
+        "level": "proof" if nob > 0 else "other",
         "coverage": {
+            "explanation": ("contract proofs of the listed functions: every obligation generated by goto-instrument --dfcc and cbmc for "
+                            "the unit is discharged for all inputs satisfying the contract's requires clause; units of kind B are bounded "
+                            "stand-ins (bound stated per unit) and are counted only under bounded_obligations"
+                            if nob > 0 else
+                            "BOUNDED stand-in only: the real functions are checked against their contracts by CBMC with the loop bounds "
+                            "stated per unit (kind B); nothing here is counted as an unbounded proof"),
             "obligations": nob, "discharged": ndis,
             "checker_cmd": "python3 tools/driver.py check %s --tier %s  (per unit: goto-cc -> goto-instrument --dfcc <entry> --enforce-contract f --replace-call-with-contract g.. [--apply-loop-contracts] -> cbmc <checks> --object-bits 12)" % (prop, tier),
             "trusted_base": TRUSTED,
